@@ -39,7 +39,8 @@ def validate(ctx, trace, specs, what):
                 if v["inv"] in seen:
                     continue
                 seen.add(v["inv"])
-                ctx.violations.append({"kind": "violation", "sig": "%s/%s" % (spec, v["inv"]), "count": 1, "path": [],
+                kept = keep_life(ctx, trace, v["at"], "%s.%s" % (spec, v["inv"]))
+                ctx.violations.append({"kind": "violation", "sig": "%s/%s" % (spec, v["inv"]), "count": 1, "path": [kept],
                                        "detail": "%s: check %s fails at event %d of the recorded execution (%s): %s" % (spec, v["inv"], v["at"], what, v["info"])})
         elif not r["accepted"]:
             raise vlib.MachineryError("%s did not consume the recorded trace (%s) beyond event %s: %s" % (spec, what, r["prefix"], r.get("event")))
@@ -49,6 +50,27 @@ def validate(ctx, trace, specs, what):
         head = [next(f).strip() for _ in range(6)]
     if len(ctx.samples) < 4:
         ctx.samples.append(head)
+
+
+def keep_life(ctx, trace, at, tag):
+    """Keep the engine life that contains event number `at` of a recorded log (from its Reset to the next one, at
+    most 60000 lines) under replays/<property>/ so that a reported failure can be studied and re-validated."""
+    keep = os.path.join(vlib.VERIF, "replays", ctx.prop)
+    os.makedirs(keep, exist_ok=True)
+    dst = os.path.join(keep, "life.%s.seed%d.ndjson" % (tag.replace("/", "_"), ctx.seed))
+    cur, hit = [], False
+    with open(trace) as f:
+        for i, line in enumerate(f, 1):
+            if '"ev":"Reset"' in line:
+                if hit:
+                    break
+                cur = []
+            cur.append(line)
+            if i == at:
+                hit = True
+    with open(dst, "w") as f:
+        f.writelines(cur[:60000])
+    return dst
 
 
 def design(ctx, what):
